@@ -150,8 +150,33 @@ def schema_to_wire(sd: dict) -> dict:
     return out
 
 
+FILES_MARK = "//@@FILES "
+
+
+def files_text(files):
+    """a schema spread over files, carried where a schema text is expected: a first line with the {relative path: text} map"""
+    import json
+    return FILES_MARK + json.dumps(files) + "\n"
+
+
 def parse(text):
-    from fcp.parser import get_fcp_from_string
+    """Result of the front end for a schema text, or - if the text is a `files_text` - for its main.fcp on disk"""
+    from fcp.parser import get_fcp_from_string, get_fcp
     from fcp.error import Logger
 
-    return get_fcp_from_string(text, Logger({}))
+    if not text.startswith(FILES_MARK):
+        return get_fcp_from_string(text, Logger({}))
+    import json
+    import shutil
+    import tempfile
+    files = json.loads(text[len(FILES_MARK):].split("\n", 1)[0])
+    d = tempfile.mkdtemp(prefix="fcpfiles_")
+    try:
+        for rel, t in files.items():
+            p = os.path.join(d, rel)
+            os.makedirs(os.path.dirname(p), exist_ok=True)
+            with open(p, "w", newline="") as f:
+                f.write(t)
+        return get_fcp(os.path.join(d, "main.fcp"), Logger({}))
+    finally:
+        shutil.rmtree(d, ignore_errors=True)
